@@ -7,7 +7,7 @@
     overflow guard), and [mmr_size n <= u32_max] (array indices are u32). *)
 From V.Lib Require Import Base MachInt.
 From V.C20 Require Import Model Spec ProofsData ProofsArith ProofsStore ProofsAppend ProofsSpec
-  ProofsTruncate Corr ProofsTop.
+  ProofsTruncate Corr ProofsTop ProofsCodec.
 Local Open Scope Z_scope.
 
 (** Field rules of [Version::combine] for V1/V2/V3. *)
@@ -91,6 +91,31 @@ Theorem C20_append_then_truncate : forall H oc v t ls d b h0,
     root_node t = Ok en /\ root_node t2 = Ok en2 /\ e_data en2 = e_data en /\
     t_count t2 = t_count t /\ cnt = Z.of_nat (length links) /\ repr H v t2 ls.
 Proof. exact append_then_truncate. Qed.
+
+(** CompactSize over the whole u64 range (no 0x02000000 bound): round trip and canonicity. *)
+Theorem C20_compactsize_roundtrip : forall x rest,
+  0 <= x <= u64_max -> read_cs (write_cs x ++ rest) = Ok (x, rest).
+Proof. exact cs_roundtrip. Qed.
+Theorem C20_compactsize_canonical : forall b x rest,
+  bytesP b -> read_cs b = Ok (x, rest) -> b = write_cs x ++ rest /\ 0 <= x <= u64_max /\ bytesP rest.
+Proof. exact cs_canonical. Qed.
+
+(** Node records of V1/V2/V3 serialise and parse back unchanged, counters up to 2^64-1. *)
+Theorem C20_node_roundtrip : forall v d rest,
+  wf_data v d -> height_span (d_sh d) (d_eh d) <> None ->
+  read_node v (d_branch d) (write_node v d ++ rest) = Ok (d, rest).
+Proof. exact node_roundtrip. Qed.
+(** A descending height range is rejected when parsing (V1 layer, shared by V2/V3). *)
+Theorem C20_node_descending_rejected : forall d rest,
+  wf_data V1 d -> height_span (d_sh d) (d_eh d) = None ->
+  read_v1 (d_branch d) (write_v1 d ++ rest) = Err InvalidData.
+Proof. exact node_descending_rejected. Qed.
+Theorem C20_entry_roundtrip : forall v e w rest,
+  wf_data v (e_data e) -> height_span (d_sh (e_data e)) (d_eh (e_data e)) <> None ->
+  (match e_kind e with Node (Stored l) (Stored r) => 0 <= l <= u32_max /\ 0 <= r <= u32_max | _ => True end) ->
+  write_entry v e = Ok w ->
+  read_entry v (d_branch (e_data e)) (w ++ rest) = Ok (e, rest).
+Proof. exact entry_roundtrip. Qed.
 
 (** Non-vacuity: the guards are satisfiable, including at extreme counters and heights. *)
 Example C20_nonvacuous :
